@@ -21,6 +21,25 @@ CLAIMED['C02'] = dict(
          'non-integer items is tested on the implementation only (not a theorem).',
     technique='Coq proof (case analysis + finite sweeps by vm_compute) + exhaustive model/implementation correspondence',
     design='5/C02')
+CLAIMED['C04'] = dict(
+    text='Theorems for byte streams of ANY length over 0..255: parse_all never raises and yields only valid messages; the encodings of the '
+         'real-time messages are exactly the defined real-time bytes of the input in order; the bytes of all other messages are an ordered '
+         'subsequence of the non-real-time input. Proved by a step invariant on the tokenizer model lifted by induction. Tied to /repo by '
+         'exhaustive enumeration over a 17-class alphabet and random streams.',
+    note='Coq kernel; no axioms; model collapses stale tokenizer buffers to Idle (unobservable; validated by correspondence); inputs outside 0..255 are outside the model.',
+    technique='Coq proof (step invariant + induction over the byte list) + model/implementation correspondence', design='5/C04')
+CLAIMED['C05'] = dict(
+    text='Theorems over ALL chunkings and ALL histories of feed/feed_byte/get_message/pending/iteration: chunked feeding reaches the same '
+         'parser state as feeding at once; retrieved ++ queued == parse_all(everything fed) (FIFO, nothing lost or duplicated); pending/get '
+         'contracts; ParserQueue histories reduce to Parser histories. Correspondence compares real Parser/ParserQueue step by step.',
+    note='Coq kernel; no axioms; live-generator aliasing (feeding while an iterator is open) not modelled; ParserQueue put() covered by correspondence only.',
+    technique='Coq proof (induction over operation histories) + model/implementation correspondence', design='5/C05')
+CLAIMED['C06'] = dict(
+    text='Theorems: for ANY byte prefix P and ANY valid message M, parse_all(P ++ enc M) = parse_all(P) ++ [M]; any concatenation of encodings '
+         'parses back; any number of bytes >= 0xF8 at any positions strictly inside a sysex are delivered ahead of it with the payload unchanged '
+         '(inductive interleaving relation, unbounded).',
+    note='Coq kernel; no axioms; same model as C04.',
+    technique='Coq proof (state-independence lemma on status bytes + induction) + model/implementation correspondence', design='5/C06')
 NOT_YET = {}
 ALL = ['C%02d' % i for i in range(1, 21)]
 
@@ -53,5 +72,5 @@ m = {
     'not_applicable': na,
     'notes': 'One command per property: bin/check Cxx --tier quick|thorough. Known findings: known_findings.txt.',
 }
-json.dump(m, open('MANIFEST.json', 'w'), indent=1)
+json.dump(m, open('/verif/MANIFEST.json', 'w'), indent=1)
 print('claimed', sorted(CLAIMED))
